@@ -1695,4 +1695,41 @@ example : normalise [Member.series [(0, some 1)], .frame ⟨2, [(3, [some 7, non
         pure (g == some f.dropNaRows && f.dropNaRows != f)
     | Option.none => pure false : Res Bool) true
 
+/-! ### ONE series and ONE bound (review t4 2.2): outside `Stitchable` (which needs two), inside "all n between 1 and the number
+of series" -/
+
+/-- `df_slice([s], ub = [u], openclose, n = 1)` is the single slice of `s` up to `u` (no lower bound), as a one-column frame:
+nothing is concatenated (`assemble` of one piece is the piece) -/
+theorem stitch_single_eq (s : TS) (u : Int) (oc : Option (List Char)) :
+    stitch [s] Option.none (some [u]) oc 1 =
+      (sliceOne (ofTS s) .none (.date u) oc).map fun rows => some (⟨1, rows⟩ : Frame) := by
+  simp only [stitch, normalise, nonDecreasing, framesOf, zipper3, lens3, cutAll, assemble, bcast]
+  cases h : sliceOne (ofTS s) Bound.none (Bound.date u) oc <;>
+    simp_all [optDate, Except.map, bind, Except.bind, pure, Except.pure, List.eraseDups]
+
+/-- ... so a row is in the result exactly when it is a row of `s` whose timestamp satisfies `t <(=) u` as the closing bracket
+says - the clause "every timestamp in (ub[i-1], ub[i]] takes its data from series i" for the only `i`, by membership -/
+theorem stitch_single_iff (s : TS) (u : Int) (oc : Option (List Char)) (l r : Bool) (hb : brackets oc = .ok (l, r)) (F : Frame)
+    (hF : stitch [s] Option.none (some [u]) oc 1 = .ok (some F)) (t : Int) (vs : List (Option Int)) :
+    F.width = 1 ∧ ((t, vs) ∈ F.rows ↔ (∃ v, (t, v) ∈ s ∧ vs = [v]) ∧ ubOk r (.date u) t = true) := by
+  rw [stitch_single_eq] at hF
+  cases hs : sliceOne (ofTS s) Bound.none (Bound.date u) oc with
+  | error e => rw [hs] at hF; cases hF
+  | ok rows =>
+    rw [hs] at hF
+    have hF' : F = ⟨1, rows⟩ := by
+      simp only [Except.map] at hF
+      cases hF; rfl
+    subst hF'
+    refine ⟨rfl, ?_⟩
+    rw [slice_iff (ofTS s) rows .none (.date u) oc l r hb hs (t, vs)]
+    have hl : lbOk l Bound.none t = true := by cases l <;> rfl
+    simp only [hl, true_and, ofTS, List.mem_map, Prod.mk.injEq]
+    constructor
+    · rintro ⟨⟨p, hp, rfl, rfl⟩, h2⟩; exact ⟨⟨p.2, hp, rfl⟩, h2⟩
+    · rintro ⟨⟨v, hv, rfl⟩, h2⟩; exact ⟨⟨(t, v), hv, rfl, rfl⟩, h2⟩
+
+example : ∃ F, stitch [[(1, some 5), (3, some 7), (4, some 9)]] Option.none (some [3]) (some ['(', ']']) 1 = .ok (some F) ∧ F.rows = [(1, [some 5]), (3, [some 7])] := by
+  rw [stitch_single_eq]; exact ⟨_, rfl, by decide⟩
+
 end Pyg.Props.C13
